@@ -15,13 +15,13 @@ pub struct HistCase {
 
 pub fn oracles_for(name: &str) -> Oracles {
     match name {
-        "c01" => Oracles { leaf_grads: true, ..Default::default() },
-        "c03" => Oracles { leaf_grads: true, inner_grads: true, grad_shapes: true, ..Default::default() },
+        "c01" => Oracles { leaf_grads: true, panics_fail: true, ..Default::default() },
+        "c03" => Oracles { leaf_grads: true, inner_grads: true, grad_shapes: true, panics_fail: true, ..Default::default() },
         "c08" => Oracles { immutable: true, ..Default::default() },
         "c09" => Oracles { grad_absence: true, flags: true, result_tracking: true, ..Default::default() },
         "c18" => Oracles { ownership: true, ..Default::default() },
-        "c11" => Oracles { custom_log: true, ..Default::default() },
-        "c19" => Oracles { forward: true, leaf_grads: true, grad_shapes: true, result_tracking: true, ..Default::default() },
+        "c11" => Oracles { custom_log: true, panics_fail: true, ..Default::default() },
+        "c19" => Oracles { forward: true, leaf_grads: true, grad_shapes: true, result_tracking: true, panics_fail: true, ..Default::default() },
         _ => Oracles::default(),
     }
 }
